@@ -18,3 +18,17 @@ use crate::symint::{SymS, SymU};
 impl_clamp_integer!{SymS SymU}
 wrap_impl_sint!{SymS}
 wrap_impl_uint!{SymU}
+
+// scalar-on-the-left `T op Vec<T>` impls (verbatim macro body of /repo/src/vec.rs) for the symbolic scalar
+pub mod vecleft {
+    #![allow(unused_imports)]
+    use std::ops::*;
+    use crate::sym::Sym;
+    use vek::vec::repr_c::*;
+    include!(concat!(env!("OUT_DIR"), "/vec_macros.rs"));
+    macro_rules! left { ($($V:ident)+) => { $(
+        vec_impl_binop_commutative!{c, impl Add<$V> for T { add, simd_add } where T = Sym}
+        vec_impl_binop_commutative!{c, impl Mul<$V> for T { mul, simd_mul } where T = Sym}
+    )+ } }
+    left!(Vec2 Vec3 Vec4 Vec8 Vec16 Vec32 Vec64 Extent2 Extent3 Rgb Rgba Uv Uvw);
+}
